@@ -162,3 +162,29 @@ Fixpoint excluded_from (s : shadow) (evs : list event) : option N :=
   end.
 Definition excluded (anchor : hash) (evs : list event) : option N :=
   excluded_from (mkShadow anchor 0 [] []) evs.
+
+(* ---------------------------------------------------------------- the ChainFinder invariant (DESIGN.md appendix D) *)
+(* [inset d t b]: b is a member of the set stored under key t *)
+Definition inset (d : dict (list hash)) (t b : hash) : Prop := exists s, dget t d = Some s /\ In b s.
+(* [ppath p P b l] — l = b, parent b, ..., t where every element but the last satisfies P and the last one
+   (the "top") does not *)
+Inductive ppath (p : dict hash) (P : hash -> Prop) : hash -> list hash -> Prop :=
+| pp_top : forall t, ~ P t -> ppath p P t [t]
+| pp_step : forall b b' l, P b -> dget b p = Some b' -> ppath p P b' l -> ppath p P b (b :: l).
+Definition kn (p : dict hash) (x : hash) : Prop := dget x p <> None.
+Definition dbt_ok (cf : finder) : Prop :=
+  forall t b, inset (dbt cf) t b <-> exists l, dget b (tfb cf) = Some l /\ last l 0 = t.
+Definition nodup_ok (cf : finder) : Prop := forall t s, dget t (dbt cf) = Some s -> NoDup s.
+(* every stored tree is the full path from its bottom to the first hash without a known parent; the sets of
+   descendents_by_top list exactly the bottoms by top; every known hash lies on a stored path *)
+Definition finder_ok (cf : finder) : Prop :=
+  (forall b l, dget b (tfb cf) = Some l -> kn (pl cf) b /\ ppath (pl cf) (kn (pl cf)) b l) /\
+  dbt_ok cf /\ nodup_ok cf /\
+  (forall x, kn (pl cf) x -> exists b l, dget b (tfb cf) = Some l /\ In x l).
+(* chains in a parent map, listed from the anchor outward *)
+Inductive pchain (p : dict hash) : hash -> list hash -> Prop :=
+| pc_nil : forall a, pchain p a []
+| pc_cons : forall a h c, dget h p = Some a -> pchain p h c -> pchain p a (h :: c).
+(* the chain (leaf first, anchor removed) that _longest_local_block_chain computes *)
+Definition reported (pref : list hash) (a : hash) (w : dict Z) (cf : finder) (c : list hash) : Prop :=
+  exists cs, all_chains_ending_at pref a cf = Ret cs /\ c = removelast (best_chain w cs 0%Z []).
